@@ -92,3 +92,23 @@ Theorem C10_two_objects_overlapping_sessions : forall s opsA opsB,
   file_of (t_run (start s) calls) = run_ops s (opsA ++ opsB) /\ compact (file_of (t_run (start s) calls)).
 Proof. exact overlapping_sessions. Qed.
 Print Assumptions C10_two_objects_overlapping_sessions.
+
+(* ... and "without touching the file again" cannot be dropped: an object that goes on mutating with the table copy it read
+   BEFORE the other object's session writes over the other's block (each object trusts its own copy — the property speaks of one
+   open object and independent readers, not of two writers).  A 3-slot file; A enters; B adds an 8-byte block and leaves; A,
+   whose copy still says "slot 0 is free, data ends at 928", adds a 2-byte block: both blocks now claim offset 928. *)
+Example C10_two_writers_with_a_stale_table :
+  let s := mkS 3 [mkE 0 0 928 0 0 0 0 []; mkE 0 0 928 0 0 0 0 []; mkE 0 0 928 0 0 0 0 []]
+                 [mkE 0 0 928 0 0 0 0 []; mkE 0 0 928 0 0 0 0 []; mkE 0 0 928 0 0 0 0 []] [] in
+  let bB := mkB 11 1 8 (Some [1; 1; 1; 1; 1; 1; 1; 1]) EValue 0 0 in
+  let bA := mkB 5 1 2 (Some [9; 9]) EValue 0 0 in
+  let t := t_run (start s) [TEnter ObjA; TEnter ObjB; TOp ObjB (OAdd bB [] 1); TExit ObjB; TOp ObjA (OAdd bA [] 2); TExit ObjA] in
+  compact s /\ map (fun e => (e_type e, e_off e, e_size e)) (t_tab t) = [(5, 928, 2); (0, 930, 0); (0, 930, 0)] /\
+  t_data t = [9; 9; 1; 1; 1; 1; 1; 1] /\ soundb (file_of t) = true /\
+  file_of t <> run_ops s [OAdd bB [] 1; OAdd bA [] 2].
+Proof.
+  cbn zeta. split; [|split; [vm_compute; reflexivity|split; [vm_compute; reflexivity|split; [vm_compute; reflexivity|]]]].
+  - exists (mkA 3 [] [mkF 0 0 0 0 []; mkF 0 0 0 0 []; mkF 0 0 0 0 []]). split; [|reflexivity].
+    split; [split; [constructor|reflexivity]|constructor].
+  - intros H. apply (f_equal data) in H. vm_compute in H. discriminate.
+Qed.
